@@ -75,11 +75,23 @@ func TestC14_P_ReifyTable(t *testing.T) {
 
 func c14OneNode(t *rapid.T, st *Store, ls *ipld.LinkSystem, ev *Evid) *c14Kept {
 	reifier := rapid.SampledFrom([]string{"Reify", "unixfs", "unixfs-preload"}).Draw(t, "reifier")
+	// lazy reification loads nothing, so it has to work just as well through a link system that can only write (the one a
+	// builder was handed) or has no storage at all: what a node is reified as depends on the node
+	rls := ls
+	if reifier != "unixfs-preload" && rapid.IntRange(0, 3).Draw(t, "noReadStorage") == 0 {
+		ls2 := *ls
+		ls2.StorageReadOpener = nil
+		if rapid.Bool().Draw(t, "noWriteStorageEither") {
+			ls2.StorageWriteOpener = nil
+		}
+		rls = &ls2
+		ev.Count("reified-through-a-link-system-without-read-storage", 1)
+	}
 	reify := func(n datamodel.Node) (datamodel.Node, error) {
 		if reifier == "Reify" {
-			return unixfsnode.Reify(ipld.LinkContext{}, n, ls)
+			return unixfsnode.Reify(ipld.LinkContext{}, n, rls)
 		}
-		return ls.KnownReifiers[reifier](ipld.LinkContext{}, n, ls)
+		return rls.KnownReifiers[reifier](ipld.LinkContext{}, n, rls)
 	}
 	class := rapid.SampledFrom([]string{"non-dagpb", "pb-nodata", "pb-garbage", "pb-unixfs", "pb-unixfs", "pb-unixfs", "pb-unixfs"}).Draw(t, "class")
 	if class == "non-dagpb" {
